@@ -804,14 +804,15 @@ class ManifestRecursiveLoader:
 
                         # do the rename!
                         self.loaded_manifests[new_mpath] = m
+                        # NB: must precede save_manifest() which signs
+                        # only the top-level Manifest
+                        if mpath == self.top_level_manifest_filename:
+                            self.top_level_manifest_filename = new_mpath
                         self.save_manifest(new_mpath)
                         del self.loaded_manifests[mpath]
                         os.unlink(os.path.join(self.root_directory,
                                                mpath))
                         renamed_manifests[mpath] = new_mpath
-
-                        if mpath == self.top_level_manifest_filename:
-                            self.top_level_manifest_filename = new_mpath
 
         # now, discard all the Manifests whose entries we've updated
         self.updated_manifests -= fixed_manifests
